@@ -87,17 +87,20 @@ Qed.
 Lemma is_nil_app {A} (a b : list A) : is_nil (a ++ b) = is_nil a && is_nil b.
 Proof. destruct a; reflexivity. Qed.
 
-Lemma advance_app (a b : list (list Qc)) : advance (a ++ b) = advance a ++ advance b.
+Section Mix.
+Variable M : addable.
+
+Lemma advance_app (a b : list (list M)) : advance (a ++ b) = advance a ++ advance b.
 Proof. unfold advance. apply flat_map_app. Qed.
 
 (* ------------------------------------------------------------------ *)
 (* Cumulative deltas and [starts]                                       *)
 (* ------------------------------------------------------------------ *)
 
-Fixpoint sumd (l : list event) : Qc :=
+Fixpoint sumd (l : list (event M)) : Qc :=
   match l with [] => 0 | e :: r => e_delta e + sumd r end.
 
-Lemma sumd_app (a b : list event) : sumd (a ++ b) = sumd a + sumd b.
+Lemma sumd_app (a b : list (event M)) : sumd (a ++ b) = sumd a + sumd b.
 Proof. induction a as [|e a IH]; simpl; [ring|]. rewrite IH. ring. Qed.
 
 Lemma starts_from_app : forall a T b,
@@ -108,13 +111,13 @@ Proof.
   - rewrite IH, Qcplus_assoc. reflexivity.
 Qed.
 
-Lemma starts_app (a b : list event) : starts (a ++ b) = starts a ++ starts_from (sumd a) b.
+Lemma starts_app (a b : list (event M)) : starts (a ++ b) = starts a ++ starts_from (sumd a) b.
 Proof. unfold starts. rewrite starts_from_app, Qcplus_0_l. reflexivity. Qed.
 
-Lemma starts_from_snd : forall w T, map snd (starts_from T w) = map e_data w.
+Lemma starts_from_snd : forall (w : list (event M)) T, map snd (starts_from T w) = map e_data w.
 Proof. induction w as [|e w IH]; intro T; simpl; [reflexivity|]. rewrite IH. reflexivity. Qed.
 
-Lemma starts_from_lb : forall l T0 T,
+Lemma starts_from_lb : forall (l : list (event M)) T0 T,
   T0 <= T -> Forall (fun e => 0 <= e_delta e) l ->
   Forall (fun sd => (qceil (T0 - half) <= fst sd)%Z) (starts_from T l).
 Proof.
@@ -135,14 +138,14 @@ Qed.
 (* An event started at s0 with data of length L sits in [playing] during the
    rounds s0 .. s0+L (in the last one as the exhausted []), as the suffix not
    yet consumed. *)
-Definition live (n : Z) (sd : Z * list Qc) : list (list Qc) :=
+Definition live (n : Z) (sd : Z * list M) : list (list M) :=
   if (n <=? fst sd + Z.of_nat (length (snd sd)))%Z
   then [skipn (Z.to_nat (n - fst sd)) (snd sd)] else [].
 
-Lemma live_heads (n : Z) (sd : Z * list Qc) (z : Qc) :
+Lemma live_heads (n : Z) (sd : Z * list M) (z : M) :
   (fst sd <= n)%Z ->
-  fold_left (fun acc p => match p with x :: _ => acc + x | [] => acc end) (live n sd) z
-  = match due n sd with Some x => z + x | None => z end.
+  fold_left (fun acc p => match p with x :: _ => madd M acc x | [] => acc end) (live n sd) z
+  = match due n sd with Some x => madd M z x | None => z end.
 Proof.
   destruct sd as [s0 data]. simpl fst. intro H. unfold live, due. simpl fst. simpl snd.
   replace (s0 <=? n)%Z with true by (symmetry; apply Z.leb_le; exact H).
@@ -152,7 +155,7 @@ Proof.
   - apply Z.leb_gt in E. rewrite skipn_all2 by lia. reflexivity.
 Qed.
 
-Lemma live_advance (n : Z) (sd : Z * list Qc) :
+Lemma live_advance (n : Z) (sd : Z * list M) :
   (fst sd <= n)%Z -> advance (live n sd) = live (n + 1) sd.
 Proof.
   destruct sd as [s0 data]. simpl fst. intro H. unfold live. simpl fst. simpl snd.
@@ -171,7 +174,7 @@ Proof.
     apply Z.leb_le in E2. lia.
 Qed.
 
-Lemma live_nil (n : Z) (sd : Z * list Qc) :
+Lemma live_nil (n : Z) (sd : Z * list M) :
   is_nil (live (n + 1) sd) = (fst sd + Z.of_nat (length (snd sd)) <=? n)%Z.
 Proof.
   unfold live.
@@ -180,10 +183,10 @@ Proof.
   [apply Z.leb_le in E1; apply Z.leb_le in E2|apply Z.leb_gt in E1; apply Z.leb_gt in E2]; lia.
 Qed.
 
-Lemma sum_heads_live (n : Z) : forall l z,
+Lemma sum_heads_live (n : Z) : forall (l : list (Z * list M)) z,
   Forall (fun sd => (fst sd <= n)%Z) l ->
   sum_heads z (flat_map (live n) l)
-  = fold_left (fun acc sd => match due n sd with Some x => acc + x | None => acc end) l z.
+  = fold_left (fun acc sd => match due n sd with Some x => madd M acc x | None => acc end) l z.
 Proof.
   unfold sum_heads.
   induction l as [|sd l IH]; intros z H; simpl; [reflexivity|].
@@ -191,9 +194,9 @@ Proof.
   rewrite fold_left_app, live_heads by exact H1. apply IH. exact H2.
 Qed.
 
-Lemma fold_due_future (n : Z) : forall l z,
+Lemma fold_due_future (n : Z) : forall (l : list (Z * list M)) (z : M),
   Forall (fun sd => (n + 1 <= fst sd)%Z) l ->
-  fold_left (fun acc sd => match due n sd with Some x => acc + x | None => acc end) l z = z.
+  fold_left (fun acc sd => match due n sd with Some x => madd M acc x | None => acc end) l z = z.
 Proof.
   induction l as [|sd l IH]; intros z H; simpl; [reflexivity|].
   inversion H as [|? ? H1 H2]; subst. destruct sd as [s0 data]. simpl in H1.
@@ -210,7 +213,7 @@ Proof.
   rewrite advance_app, live_advance, IH by assumption. reflexivity.
 Qed.
 
-Lemma is_nil_live_all (n : Z) : forall l,
+Lemma is_nil_live_all (n : Z) : forall (l : list (Z * list M)),
   is_nil (flat_map (live (n + 1)) l)
   = forallb (fun sd => (fst sd + Z.of_nat (length (snd sd)) <=? n)%Z) l.
 Proof.
@@ -232,11 +235,11 @@ Qed.
 (* The simulation invariant                                             *)
 (* ------------------------------------------------------------------ *)
 
-Definition pend_of (w : list event) : list (Qc * list Qc) :=
+Definition pend_of (w : list (event M)) : list (Qc * list M) :=
   map (fun e => (e_delta e, e_data e)) w.
 
 (* State at the beginning of round n (n outputs produced so far, not finished). *)
-Definition Inv (s : st) (evs : list event) (n : Z) : Prop :=
+Definition Inv (s : st M) (evs : list (event M)) (n : Z) : Prop :=
   exists started waiting,
     evs = started ++ waiting /\
     pending s = pend_of waiting /\
@@ -251,7 +254,7 @@ Proof.
   exists [], []. simpl. repeat split; constructor.
 Qed.
 
-Lemma Inv_add (s : st) (evs : list event) (n : Z) (d : Qc) (data : list Qc) :
+Lemma Inv_add (s : st M) (evs : list (event M)) (n : Z) (d : Qc) (data : list M) :
   0 <= d -> Inv s evs n ->
   Inv (ST (count s) (pending s ++ [(d, data)]) (playing s) (fin s)) (evs ++ [EV d data n]) n.
 Proof.
@@ -313,7 +316,7 @@ Proof.
 Qed.
 
 (* One non-finished round of the generator against the specification. *)
-Lemma next_sim (keep : bool) (zero : Qc) (s : st) (evs : list event) (n : Z) :
+Lemma next_sim (keep : bool) (zero : M) (s : st M) (evs : list (event M)) (n : Z) :
   fin s = false -> Inv s evs n ->
   exists s',
     next keep zero s
@@ -371,7 +374,7 @@ Proof.
   - reflexivity.
 Qed.
 
-Lemma sim : forall ops keep zero s evs n done,
+Lemma sim : forall (ops : list (op M)) keep zero s evs n done,
   fin s = done -> (done = false -> Inv s evs n) ->
   run keep zero s ops = spec_run keep zero evs n done ops.
 Proof.
@@ -389,11 +392,14 @@ Proof.
       * f_equal. apply IH; [exact Hs'|]. intro Hd. discriminate.
 Qed.
 
-Theorem run_eq_spec_run : forall keep zero ops,
+Theorem run_eq_spec_run : forall keep (zero : M) ops,
   run keep zero init ops = spec_run keep zero [] 0 false ops.
 Proof.
   intros keep zero ops. apply sim; [reflexivity|]. intros _. exact Inv_init.
 Qed.
+
+End Mix.
+Arguments sumd {M} _.
 
 (* ------------------------------------------------------------------ *)
 (* ControlStream                                                        *)
@@ -419,12 +425,15 @@ Proof. intros V v0 ops. apply (crun_cspec_run V ops v0 []). Qed.
 (* Corollaries                                                          *)
 (* ------------------------------------------------------------------ *)
 
-Corollary negative_delta_rejected : forall s d data, d < 0 -> add s d data = None.
+Section MixCorollaries.
+Variable M : addable.
+
+Corollary negative_delta_rejected : forall (s : st M) d data, d < 0 -> add s d data = None.
 Proof.
   intros s d data H. unfold add. apply Qc_ltb_spec in H. rewrite H. reflexivity.
 Qed.
 
-Corollary nonnegative_delta_accepted : forall s d data, 0 <= d ->
+Corollary nonnegative_delta_accepted : forall (s : st M) d data, 0 <= d ->
   add s d data = Some (ST (count s) (pending s ++ [(d, data)]) (playing s) (fin s)).
 Proof.
   intros s d data H. unfold add. destruct (Qc_ltb d 0) eqn:E; [|reflexivity].
@@ -432,7 +441,7 @@ Proof.
 Qed.
 
 (* the same two facts seen through [step] *)
-Corollary step_add_rejected_iff : forall keep zero s d data,
+Corollary step_add_rejected_iff : forall keep (zero : M) s d data,
   snd (step keep zero s (Add d data)) = ORejected <-> d < 0.
 Proof.
   intros keep zero s d data. simpl. unfold add.
@@ -441,7 +450,7 @@ Proof.
   - split; [discriminate|]. intro H. apply Qc_ltb_spec in H. congruence.
 Qed.
 
-Lemma late_add_never_early_from : forall evs T e sd,
+Lemma late_add_never_early_from : forall (evs : list (event M)) T e sd,
   In (e, sd) (combine evs (starts_from T evs)) -> (e_added e <= fst sd)%Z.
 Proof.
   induction evs as [|e0 evs IH]; intros T e sd H; simpl in H; [contradiction|].
@@ -450,13 +459,13 @@ Proof.
   - apply IH with (1 := H).
 Qed.
 
-Corollary late_add_never_early : forall evs e sd,
+Corollary late_add_never_early : forall (evs : list (event M)) e sd,
   In (e, sd) (combine evs (starts evs)) -> (e_added e <= fst sd)%Z.
 Proof. intros evs e sd. apply late_add_never_early_from. Qed.
 
 (* start sample of the event at position [length pre]: T is the sum of the
    deltas up to and including it. *)
-Lemma nth_starts : forall pre e post,
+Lemma nth_starts : forall (pre : list (event M)) e post,
   nth_error (starts (pre ++ e :: post)) (length pre)
   = Some (Z.max (qceil (sumd (pre ++ [e]) - half)) (e_added e), e_data e).
 Proof.
@@ -472,7 +481,7 @@ Qed.
    first output, e_added = 0, when the deltas are >= 0) starts at
    S = ceil (T - 1/2), and that is the sample nearest to T, ties going down:
    T - 1/2 <= S < T + 1/2. *)
-Corollary start_is_nearest_sample : forall pre e post,
+Corollary start_is_nearest_sample : forall (pre : list (event M)) e post,
   (e_added e <= qceil (sumd (pre ++ [e]) - half))%Z ->
   let T := sumd (pre ++ [e]) in
   let S := qceil (T - half) in
@@ -489,7 +498,7 @@ Proof.
     discriminate.
 Qed.
 
-Lemma sumd_nonneg : forall l, Forall (fun e => 0 <= e_delta e) l -> 0 <= sumd l.
+Lemma sumd_nonneg : forall (l : list (event M)), Forall (fun e => 0 <= e_delta e) l -> 0 <= sumd l.
 Proof.
   induction l as [|e l IH]; intro H; simpl; [apply Qcle_refl|].
   inversion H as [|? ? H1 H2]; subst.
@@ -498,7 +507,7 @@ Proof.
 Qed.
 
 (* the instance "added before the first output" *)
-Corollary start_is_nearest_sample_initial : forall pre e post,
+Corollary start_is_nearest_sample_initial : forall (pre : list (event M)) e post,
   Forall (fun x => 0 <= e_delta x) (pre ++ [e]) -> e_added e = 0%Z ->
   nth_error (starts (pre ++ e :: post)) (length pre)
   = Some (qceil (sumd (pre ++ [e]) - half), e_data e).
@@ -514,7 +523,7 @@ Proof.
   apply Hh. reflexivity.
 Qed.
 
-Corollary keep_never_stops_spec : forall ops zero evs n,
+Corollary keep_never_stops_spec : forall (ops : list (op M)) zero evs n,
   ~ In OStop (spec_run true zero evs n false ops).
 Proof.
   induction ops as [|[d data|] r IH]; intros zero evs n H; simpl in H.
@@ -524,10 +533,12 @@ Proof.
   - destruct H as [H|H]; [discriminate|]. exact (IH _ _ _ H).
 Qed.
 
-Corollary keep_never_stops : forall zero ops, ~ In OStop (run true zero init ops).
+Corollary keep_never_stops : forall (zero : M) ops, ~ In OStop (run true zero init ops).
 Proof.
   intros zero ops. rewrite run_eq_spec_run. apply keep_never_stops_spec.
 Qed.
+
+End MixCorollaries.
 
 Lemma cspec_repeat_next : forall (V : Type) k (v : V), cspec v (repeat CNext k) = v.
 Proof. induction k as [|k IH]; intro v; simpl; [reflexivity|apply IH]. Qed.
